@@ -1,6 +1,8 @@
 //! Router harness (kind U): a JSON-line server around the *private* path functions of
 //! `leptos_i18n_router/src/routing.rs`, compiled from /repo's working tree as it is.
 //! No hook in /repo: the file is `include!`d into a module that adds plain-string wrappers.
+//! Ops `match_nested` / `plain_match` / `route_tables` (src/nested.rs) build a native `I18nNestedRoute` from a JSON
+//! route tree and drive `match_nested`, `generate_routes`, `generate_routes_for_each_locale`.
 #![allow(dead_code, unused_imports, non_camel_case_types, unexpected_cfgs, clippy::all)]
 use leptos_i18n::Locale;
 use serde_json::{json, Value};
@@ -93,12 +95,29 @@ mod routing {
             pb.build()
         }
     }
+
+    /// native `I18nNestedRoute` built from a JSON route tree (ops `match_nested`, `plain_match`, `route_tables`)
+    pub mod nested {
+        include!("nested.rs");
+    }
 }
 
 mod sets;
 
 use leptos::prelude::Owner;
-use routing::verif;
+use routing::{nested, verif};
+
+fn match_nested<L: Locale>(req: &Value) -> Value {
+    Owner::new().with(|| nested::match_nested::<L>(req))
+}
+
+fn plain_match<L: Locale>(req: &Value) -> Value {
+    Owner::new().with(|| nested::plain_match::<L>(req))
+}
+
+fn route_tables<L: Locale>(req: &Value) -> Value {
+    Owner::new().with(|| nested::route_tables::<L>(req))
+}
 
 fn s<'a>(req: &'a Value, k: &str) -> &'a str {
     req[k].as_str().unwrap_or_else(|| panic!("missing string field {k}"))
@@ -204,6 +223,9 @@ fn handle(req: &Value) -> Value {
         "locale_from_path" => with_set!(set, locale_from_path, req),
         "new_path" => with_set!(set, new_path, req),
         "switch_seq" => with_set!(set, switch_seq, req),
+        "match_nested" => with_set!(set, match_nested, req),
+        "plain_match" => with_set!(set, plain_match, req),
+        "route_tables" => with_set!(set, route_tables, req),
         "match_segments" => {
             let pat = verif::pattern(&req["pattern"]);
             json!({"optionals": verif::match_segments(&strs(req, "segs"), &pat)})
